@@ -254,6 +254,7 @@ headers.insert(
         res is Ok ==> exists|v: HeaderValue| hv_bytes(&v) == into_hv_bytes(value) // id: set_replaces_all_values_of_the_name [C16,C07,C08]
             && hm_view(final(headers)) == without(hm_view(old(headers)), key_view(header)).push((key_view(header), v)),
         res is Err ==> hm_view(final(headers)) == hm_view(old(headers)), // id: failed_set_changes_nothing [C16]
+        res is Ok <==> into_hv_ok(value), // id: only_an_invalid_value_is_refused [C16]
 //@@ end
 
 //@@ fn src/request/mod.rs - header_append props=C16
@@ -266,6 +267,7 @@ vp_try_into_hv
         res is Ok ==> exists|v: HeaderValue| hv_bytes(&v) == into_hv_bytes(value) // id: append_adds_and_keeps_existing_values [C16]
             && hm_view(final(headers)) == hm_view(old(headers)).push((key_view(header), v)),
         res is Err ==> hm_view(final(headers)) == hm_view(old(headers)), // id: failed_append_changes_nothing [C16]
+        res is Ok <==> into_hv_ok(value), // id: only_an_invalid_value_is_refused [C16]
 //@@ end
 
 /// `headers.entry(header).or_insert(value);`
